@@ -216,8 +216,12 @@ def run(case):
                 if not np.allclose(got, want, rtol=0, atol=tol, equal_nan=True):
                     bad = np.argwhere(~np.isclose(got, want, rtol=0, atol=tol, equal_nan=True))[0]
                     fails.append(f"target pixel {bad.tolist()} holds {got[tuple(bad)]}, the source has {want[tuple(bad)]} at the same world position (shift {s_arr})")
-                if fp is not None and case["algo"] == "interpolation" and not np.array_equal(np.asarray(fp) > 0, foot > 0):
-                    fails.append("footprint does not mark exactly the covered target pixels")
+                if fp is not None and case["algo"] == "interpolation":
+                    fpa = np.asarray(fp, dtype=float)
+                    if not np.array_equal(fpa > 0, foot > 0):
+                        fails.append("footprint does not mark exactly the covered target pixels")
+                    elif not np.all(fpa[foot == 0] == 0):
+                        fails.append(f"footprint is {np.unique(fpa[foot == 0]).tolist()[:3]} (not zero) where the source has no coverage")
         if not (np.array_equal(before[0], np.asarray(cube.data)) and before[1] == cube.meta and before[2] == cube.unit):
             fails.append("the source cube changed")
         res["obs_vals"] = got.tolist() if case["kind"] in ("same", "shift") and case["algo"] == "interpolation" else None
